@@ -6,8 +6,9 @@
  "replace": [],
  "annotate": ["network/network_read.c", "datastruct/mpool.h"],
  "specs": {"datastruct/mpool.h": "contracts/net_mpool.h.spec"},
- "defines": ["VERIF_HALLOC", "H_DIR=0"],
- "matrix": {"NET_MP_CAP": [16, 32]},
+ "defines": ["VERIF_HALLOC", "H_DIR=0", "NET_MAXOBJ=32"],
+ "matrix": {"NET_MP_CAP": [16]},
+ "defines_x": [],
  "models": ["models/net_events.c", "models/net_os.c"],
  "cbmc": ["--malloc-may-fail", "--malloc-fail-null"],
  "timeout": 300,
